@@ -4,6 +4,7 @@ import (
 	"encoding/binary"
 	"fmt"
 	"net"
+	"strings"
 	"time"
 
 	"github.com/cbeuw/Cloak/internal/server"
@@ -36,6 +37,11 @@ type C14UDPScenario struct {
 	Client  ClientParams   `json:"client"`
 	Sources [][]C14UDPSend `json:"sources"`
 	PatKey  uint64         `json:"pat_key"`
+	// EmptyTail: once a flow has answered all of its application's requests the
+	// upstream sends one empty datagram on it (legal UDP, not carriable by a
+	// Cloak frame): whatever the relay makes of it, nothing malformed may reach
+	// the wire (C10: no zero-length record)
+	EmptyTail bool `json:"empty_tail,omitempty"`
 	Partial bool           `json:"partial"`
 	Seed    uint64         `json:"seed"`
 }
@@ -57,6 +63,7 @@ func genC14UDP(g *Gen) any {
 		}
 		sc.Sources = append(sc.Sources, sends)
 	}
+	sc.EmptyTail = sc.Seed%3 == 0
 	return sc
 }
 
@@ -89,6 +96,7 @@ func parseUDPDatagram(key uint64, b []byte) (p udpParsed, problem string) {
 func runC14UDP(c *Ctx, scAny any) {
 	sc := scAny.(*C14UDPScenario)
 	c.Net.DefaultPartial = sc.Partial
+	c.Net.TapOn = true
 	cp := sc.Client
 	w := NewSrvWorld(c, SrvParams{NBypass: 1, ProxyBook: map[string][]string{"udpproxy": {"udp", "10.0.0.3:5353"}}})
 	defer w.Cleanup()
@@ -127,6 +135,7 @@ func runC14UDP(c *Ctx, scAny any) {
 			simsync.Go("h:upstream-flow", func() {
 				defer uc.Close()
 				owner := -1
+				flowReqs := 0
 				buf := make([]byte, 65536)
 				for {
 					n, err := uc.Read(buf)
@@ -158,10 +167,14 @@ func runC14UDP(c *Ctx, scAny any) {
 					}
 					seenReq[[2]int{p.src, p.idx}] = true
 					gotReq++
+					flowReqs++
 					for r := 0; r < want.Replies; r++ {
 						if _, err := uc.Write(udpDatagram(key, p.src, p.idx, r, 0, 0, want.ReplySize)); err != nil {
 							return
 						}
+					}
+					if sc.EmptyTail && flowReqs == len(sc.Sources[p.src]) {
+						uc.Write([]byte{})
 					}
 				}
 			})
@@ -228,12 +241,34 @@ func runC14UDP(c *Ctx, scAny any) {
 	if c.Failed() {
 		return
 	}
+	if sc.EmptyTail && end == simsync.EndQuiescent {
+		// the empty datagram ends its relayed flow (a Cloak frame cannot carry
+		// it); in datagram mode the stream's end may overtake the last replies on
+		// another connection, so completeness is not demanded here
+		end = simsync.EndDone
+	}
 	if end == simsync.EndQuiescent && (gotReq < wantReq || gotRep < wantRep) {
 		fail("lost", "healthy unordered session, everything quiescent: %d of %d requests reached the upstream, %d of %d replies reached the applications (ck-client exit: %q)\n%s", gotReq, wantReq, gotRep, wantRep, prog.Exit, c.W.DumpTasks())
 		return
 	}
 	if end == simsync.EndDone {
 		c.Probe(fmt.Sprintf("udp_sources_%d", len(sc.Sources)))
+		if sc.EmptyTail {
+			// let the empty datagrams travel, then look at the wire
+			c.Drive(func() bool { return false })
+			if c.Failed() {
+				return
+			}
+		}
+		if !strings.EqualFold(cp.Transport, "cdn") {
+			for _, l := range frontLinks(c) {
+				if msg := checkDirectWire(l, nil, cp, w); msg != "" {
+					sig := msg[:strings.Index(msg, "|")]
+					c.Fail("wire", sig, "%s", msg[len(sig)+1:])
+					return
+				}
+			}
+		}
 	}
 }
 
@@ -246,4 +281,6 @@ func init() {
 			return p
 		}})
 	plans["C14"] = append(plans["C14"], "c14-routeudp")
+	// C10: the tapped wire of UDP-mode sessions is held to the same record shape
+	plans["C10"] = append(plans["C10"], "c14-routeudp")
 }
